@@ -48,6 +48,25 @@ CHECKS = {
         design='§4 C15'),
 }
 
+CHECKS['C26'] = dict(
+    technique='inter-procedural must-precede (T2) over the call graph: privilege check dominates every row read / mutation; literal table of check_privilege bypasses; who-may-call for privilege mutators',
+    text='Decides, for every query shape at once, that each read of table row data in query-side code is preceded on every path from '
+         'every call-graph root by check_select, every other read and every row mutation by a privilege check of its statement, that '
+         'check_privilege has exactly the documented bypasses (security off, ADMIN, DBA) and that each check_* wrapper tests its own '
+         'PrivilegeType, and that only GRANT/REVOKE/role code calls the catalog privilege mutators. Found a reachable unguarded COUNT(*) '
+         'path the direct test missed.',
+    note='Not decided: has_privilege lookup, column-level privileges; table-name agreement between check and read is not tracked '
+         'across calls; reads of the statement\'s own target under its DML privilege count as authorised.',
+    design='§4 C26')
+CHECKS['C34'] = dict(
+    technique='must-precede/must-follow bracketing of mutation sites by trigger firing; argument-shape and literal tables (event, OLD/NEW, timing, granularity); writer/reader format agreement',
+    text='Decides that every row-mutation site reachable from the DML executors is bracketed by before/after row-trigger firing with the '
+         'event and (OLD,NEW) shape of its kind or is a frozen absence-guarded site whose guard still precedes it; that statement '
+         'triggers fire exactly once per executor outside loops; that the four firing entry points select the right timing and '
+         'granularity behind the recursion guard; and that the stored trigger text is not Debug-formatted.',
+    note='Not decided: WHEN evaluation, OLD/NEW value resolution, triggers of child tables touched by referential actions.',
+    design='§4 C34')
+
 NOT_APPLICABLE = {
     'C01': 'Equality of result multisets with a reference engine is a value-level semantic equivalence over all queries and data; no structural necessary condition beyond those claimed under C06/C21/C24 exists and a static rule cannot stand in for an oracle.',
     'C03': 'Columnar-vs-row agreement is determined by computed values (empty input, NULL handling, sums); a rejected shape falls back safely, so no table-agreement obligation exists whose breach necessarily changes results.',
